@@ -215,15 +215,18 @@ func compareDebianNonDigits(a, b string) int {
 }
 
 // getDebianCharWeight returns the sort weight for a character per Debian rules
-// Tilde (~) sorts earliest, then null, then letters/other chars
+// (dpkg's order()): tilde sorts earliest, then the end of the part, then
+// letters, then all other characters.
 func getDebianCharWeight(r rune) int {
-	switch r {
-	case '~':
+	switch {
+	case r == '~':
 		return -1 // Tilde sorts before everything else
-	case 0:
+	case r == 0:
 		return 0 // Null/missing character
+	case unicode.IsLetter(r):
+		return int(r) // Letters sort before all other punctuation
 	default:
-		return int(r) // Use Unicode value for other characters
+		return int(r) + 256
 	}
 }
 
